@@ -401,6 +401,9 @@ def corpus_cases(r, tier):
     mk("cGlobalAll", ["make global g 2 2 2 level clenshaw-curtis ll: 3 3", ("g", "needed-only:global"), "load g smooth", ("g", "loaded:global", ["update {s} 3 level", "load {s} smooth"]),
                       "update g 3 iptotal", ("g", "loaded+needed:global", ["load {s} poly"]), "refaniso g iptotal 4 0", ("g", "loaded+needed:global", ["load {s} poly"]),
                       "make global g 2 1 4 iptotal gauss-jacobi ab: 0x1p-1 0x1p+0", "load g poly", ("g", "loaded:global"),
+                      # rule parameters that need all 17 significant digits in the ASCII header (1/3 and sqrt(2)/3)
+                      "make global g 2 1 3 iptotal gauss-jacobi ab: 0x1.5555555555555p-2 0x1.e2b7dddfefa66p-2", "load g poly", ("g", "loaded:global"),
+                      "make global g 1 1 4 level gauss-gegenbauer ab: 0x1.e2b7dddfefa66p-2 0x0p+0", "load g poly", ("g", "loaded:global"),
                       "make global g 2 1 2 level leja", "load g poly", "begin g", "cand g aw level aw: 1 1", "deliver g poly idx: 4 1", ("g", "constructing:global", ["cand {s} aw iptotal aw: 1 1", "deliver {s} poly idx: 0 1 2"])],
        sp("global", 2, 1, rule="leja"), x2, None)
     mk("cCustom", ["make custom g 2 1 2 level custom.table", ("g", "needed-only:global", ["load {s} poly"]), "load g poly", ("g", "loaded:global", ["update {s} 3 level", "load {s} poly"]),
